@@ -104,6 +104,13 @@ def recovery_cases(seed, thorough=False):
     best = pgm.model_iso(iso, model=models)
     ok = close(best.model.rmse, min(m.model.rmse for m in singles.values()), rel=1e-6)
     yield {'name': 'best_of_list_has_smallest_rmse', 'ok': bool(ok), 'detail': f"{best.model.name} {best.model.rmse} vs {[(k, v.model.rmse) for k, v in singles.items()]}"}
+    # the returned isotherm (and a point isotherm generated from it) carries the metadata and units of the data that were fitted
+    src = {k: v for k, v in iso.to_dict().items()}
+    got = {k: v for k, v in best.to_dict().items()}
+    gen = {k: v for k, v in pygaps.PointIsotherm.from_modelisotherm(best, pressure_points=list(p)).to_dict().items() if k != 'model_from'}
+    extra = {k: got[k] for k in got if k != 'branch' and (k not in src or got[k] != src[k])}  # (the fitted branch is content of a model isotherm)
+    extra.update({f"generated:{k}": gen[k] for k in gen if k not in src or gen[k] != src[k]})
+    yield {'name': 'best_of_list_keeps_metadata_and_units', 'ok': not extra, 'detail': str(extra)}
     # user bounds are a dictionary by parameter name: an active bound holds whatever the key order it was written in
     for mname, truth, cap in (('Langmuir', {'K': 0.5, 'n_m': 10.0}, ('n_m', 8.0)), ('Toth', {'n_m': 6.0, 'K': 4.0, 't': 0.8}, ('n_m', 5.0)),
                               ('DSLangmuir', {'n_m1': 3.0, 'K1': 10.0, 'n_m2': 2.0, 'K2': 0.5}, ('n_m1', 2.0))):
